@@ -84,7 +84,11 @@ def run_socket(case):
                 # around the transports' polling intervals (0.1 s read timeouts, 1 s)
                 latency = round(rng.choice([rng.uniform(0.095, 0.108), rng.uniform(0.095, 0.108), rng.uniform(0.195, 0.205), rng.uniform(0.99, 1.02)]), 4)
             fail = rng.random() < 0.1
-            reqs.append(((c, s), latency, fail, spec))
+            abandon = None
+            if rng.random() < 0.08 and c % 4 != 3:
+                # the caller gives up on this request long before the handler answers; later requests must be unaffected
+                latency, fail, abandon = round(rng.uniform(0.05, 0.3), 3), False, round(rng.uniform(0.005, 0.03), 4)
+            reqs.append(((c, s), latency, fail, spec, abandon))
         plans.append(reqs)
 
     def lifetime():
@@ -94,7 +98,7 @@ def run_socket(case):
                     mine = plans[c]
                     if c % 4 == 3:
                         # stream: order must be preserved
-                        items = [(tag, lat, False, targets.make_payload(spec)) for tag, lat, fail, spec in mine]
+                        items = [(tag, lat, False, targets.make_payload(spec)) for tag, lat, fail, spec, _ab in mine]
                         k = 0
                         for x, y in client.stream('/tagged', iter(items), return_x=True):
                             with lock:
@@ -107,7 +111,19 @@ def run_socket(case):
                             if k != len(items):
                                 viol.append({'mech': 'socket/stream-count', 'msg': f'stream yielded {k} of {len(items)}'})
                         return
-                    for tag, lat, fail, spec in mine:
+                    for tag, lat, fail, spec, abandon in mine:
+                        if abandon is not None:
+                            try:
+                                y = client.request('/tagged', (tag, lat, False, targets.make_payload(spec)), response_timeout=abandon)
+                            except BaseException as e:  # noqa: BLE001
+                                y = e
+                            with lock:
+                                obs['requests'] += 1
+                                if isinstance(y, TimeoutError) or type(y).__name__ == 'TimeoutError':
+                                    obs['abandoned_requests'] = obs.get('abandoned_requests', 0) + 1
+                                elif not (isinstance(y, tuple) and tuple(y[0]) == tag):
+                                    viol.append({'mech': 'socket/response-to-wrong-request', 'msg': f'request {tag} (response_timeout {abandon}s) received {y!r}'[:300]})
+                            continue
                         if c == 0 and tag[1] % 7 == 3:
                             time.sleep(0.1 + (tag[1] % 5) * 0.002)  # the connection sits idle for about one read timeout
                         payload = targets.make_payload(spec)
